@@ -206,10 +206,301 @@ static bool doDrain(Interp& I, const Step& s)
     return true;
 }
 
+// ---------------------------------------------------------------------------------------
+// C15: index sets
+// ---------------------------------------------------------------------------------------
+// lexicographic sort key of a set assignment by level (level K most significant)
+static std::vector<int> levelKey(World& W, int f, const std::vector<int>& from)
+{
+    forest* F = W.F[f];
+    const int K = W.domOf(f).K();
+    std::vector<int> key;
+    for (int lvl = K; lvl >= 1; lvl--) key.push_back(from[size_t(F->getVarByLevel(lvl))]);
+    return key;
+}
+
+static bool doIndexSet(Interp& I, const Step& s)
+{
+    // un INDEXSET src dst f
+    World& W = I.W;
+    if (s.size() < 5) { I.skip("ix-short"); return true; }
+    const int src = toInt(s[2]), dst = toInt(s[3]), fc = toInt(s[4]);
+    if (!I.liveSlot(src) || dst < 0 || dst > 63 || !I.okForest(fc)) { I.skip("ix-operands"); return true; }
+    const int fa = W.slots[size_t(src)].f;
+    const FSpec &SA = W.fs[fa], &SC = W.fs[fc];
+    if (SA.rel || SA.range != 'B' || SA.label != 'M' || SC.label != 'X' || SC.rel || SA.dom != SC.dom) { I.skip("ix-kinds"); return true; }
+    const Table& TA = W.slots[size_t(src)].T;
+    for (auto& v : TA) if (v.isUn()) { I.skip("ix-unspec"); return true; }
+    // model: members in lexicographic order get 0..n-1
+    struct M { std::vector<int> key; long idx; };
+    std::vector<M> mem;
+    std::vector<int> from, to;
+    for (long idx = 0; idx < long(TA.size()); idx++) {
+        if (!TA[size_t(idx)].i) continue;
+        W.decode(fa, idx, from, to);
+        mem.push_back({levelKey(W, fa, from), idx});
+    }
+    std::sort(mem.begin(), mem.end(), [](const M& a, const M& b) { return a.key < b.key; });
+    Table T(TA.size(), Val::Inf());
+    for (size_t i = 0; i < mem.size(); i++) T[size_t(mem[i].idx)] = Val::I(long(i));
+    {
+        std::vector<int> oa(size_t(W.domOf(fa).K()) + 1), oc(oa.size());
+        W.F[fa]->getVariableOrder(oa.data()); W.F[fc]->getVariableOrder(oc.data());
+        if (oa != oc) { I.skip("ix-order"); return true; }
+    }
+    unary_operation* uop = nullptr;
+    try { uop = CONVERT_TO_INDEX_SET().build(W.F[fa], W.F[fc]); }
+    catch (MEDDLY::error& er) { I.R.labels.add("unsupported.INDEXSET"); return true; }
+    if (!uop) { I.R.labels.add("unsupported.INDEXSET"); return true; }
+    dd_edge* e = new dd_edge(W.F[fc]);
+    try { uop->compute(*W.slots[size_t(src)].e, *e); }
+    catch (MEDDLY::error& er) { delete e; return I.fail("exception", std::string("CONVERT_TO_INDEX_SET threw ") + er.getName()); }
+    I.R.labels.add("op.INDEXSET");
+    if (mem.empty()) I.R.labels.add("indexset_empty");
+    if (mem.size() == TA.size()) I.R.labels.add("indexset_full");
+    if (mem.size() >= 2 && mem.size() < TA.size()) I.R.labels.add("indexset_proper");
+    if (!I.produce(dst, fc, e, T, "CONVERT_TO_INDEX_SET")) return false;
+
+    // cardinality stored in the root and in every node below
+    forest* F = W.F[fc];
+    const dd_edge& E = *W.slots[size_t(dst)].e;
+    const int K = W.domOf(fc).K();
+    std::map<node_handle, long> memo;
+    std::function<long(node_handle, int)> below = [&](node_handle p, int L) -> long {
+        // number of members among the assignments of levels 1..L under edge p
+        if (p == 0) return 0;
+        long skip = 1;
+        int pl = p > 0 ? F->getNodeLevel(p) : 0;
+        for (int l = L; l > pl; l--) skip *= W.domOf(fc).sizes[size_t(F->getVarByLevel(l))];
+        if (p < 0) return skip;
+        auto it = memo.find(p);
+        long c;
+        if (it != memo.end()) c = it->second;
+        else {
+            unpacked_node* U = unpacked_node::newFromNode(F, p, SPARSE_ONLY);
+            std::vector<node_handle> dn;
+            for (unsigned z = 0; z < U->getSize(); z++) dn.push_back(U->down(z));
+            unpacked_node::Recycle(U);
+            c = 0;
+            for (auto d : dn) c += below(d, pl - 1);
+            memo[p] = c;
+        }
+        return c * skip;
+    };
+    long total = below(E.getNode(), K);
+    if (total != long(mem.size())) return I.fail("C15.cardinality", "index set holds " + std::to_string(total) + " finite entries, the set has " + std::to_string(mem.size()) + " members");
+    for (auto& kv : memo) {
+        long got = F->getIndexSetCardinality(kv.first);
+        if (got != kv.second) return I.fail("C15.cardinality", "node " + std::to_string(kv.first) + " stores cardinality " + std::to_string(got) + ", members below it: " + std::to_string(kv.second));
+    }
+    if (E.getNode() > 0 && F->getIndexSetCardinality(E.getNode()) != long(mem.size()))
+        return I.fail("C15.cardinality", "root cardinality differs from the number of members");
+
+    // getElement for every index and for indexes outside 0..n-1
+    minterm m(F);
+    const long n = long(mem.size());
+    std::vector<long> probes;
+    for (long i = 0; i < n; i++) probes.push_back(i);
+    probes.push_back(-1); probes.push_back(n); probes.push_back(n + 5);
+    for (long i : probes) {
+        bool got;
+        try { got = E.getElement(i, m); }
+        catch (MEDDLY::error& er) { return I.fail("exception", "getElement(" + std::to_string(i) + ") threw " + er.getName()); }
+        const bool want = (i >= 0 && i < n);
+        if (got != want) return I.fail("C15.getElement", "getElement(" + std::to_string(i) + ") returned " + (got ? "true" : "false") + " for a set of " + std::to_string(n) + " members");
+        if (!want) continue;
+        std::vector<int> key;
+        for (int lvl = K; lvl >= 1; lvl--) key.push_back(m.from(unsigned(lvl)));
+        if (key != mem[size_t(i)].key) return I.fail("C15.getElement", "getElement(" + std::to_string(i) + ") returned the wrong member");
+    }
+    I.R.labels.add("getelement_probes", long(probes.size()));
+    return true;
+}
+
+// ---------------------------------------------------------------------------------------
+// C13: variable reordering
+// ---------------------------------------------------------------------------------------
+static bool doReorder(Interp& I, const Step& s)
+{
+    // reorder f v_1 .. v_K      (variable that should sit at level 1..K)
+    World& W = I.W;
+    if (s.size() < 3) { I.skip("reorder-short"); return true; }
+    const int f = toInt(s[1]);
+    if (!I.okForest(f)) { I.skip("reorder-forest"); return true; }
+    const int K = W.domOf(f).K();
+    if (int(s.size()) != 2 + K) { I.skip("reorder-shape"); return true; }
+    std::vector<int> l2v(size_t(K) + 1, 0);
+    std::vector<char> seen(size_t(K) + 1, 0);
+    for (int l = 1; l <= K; l++) {
+        int v = toInt(s[size_t(1 + l)]);
+        if (v < 1 || v > K || seen[size_t(v)]) { I.skip("reorder-notperm"); return true; }
+        seen[size_t(v)] = 1; l2v[size_t(l)] = v;
+    }
+    forest* F = W.F[f];
+    // LEVEL swap on relations is never performed on this tree (policies::isLevelSwap() tests VAR),
+    // so every heuristic that waits for progress would spin forever: non-termination is no verdict
+    // on C13 (DESIGN.md section 9, observation 12); the combination is not executed, and counted
+    if (W.fs[size_t(f)].rel && W.fs[size_t(f)].swap == 1) { I.R.labels.add("excluded.reorder_levelswap_relation"); return true; }
+    // other forests: orders and edges must not change
+    std::vector<std::vector<int>> before(W.F.size());
+    for (size_t g = 0; g < W.F.size(); g++) if (W.F[g] && int(g) != f && W.fs[g].dom == W.fs[size_t(f)].dom) {
+        before[g].resize(size_t(K) + 1);
+        W.F[g]->getVariableOrder(before[g].data());
+    }
+    std::vector<std::pair<size_t, dd_edge>> saved;
+    for (size_t sl = 0; sl < W.slots.size(); sl++) if (I.liveSlot(int(sl)) && W.slots[sl].f != f) saved.push_back({sl, dd_edge(*W.slots[sl].e)});
+    std::vector<int> cur(size_t(K) + 1);
+    F->getVariableOrder(cur.data());
+    const bool identity = (cur == l2v);
+    try {
+        F->reorderVariables(l2v.data());
+    } catch (MEDDLY::error& er) {
+        if (er.getCode() == error::NOT_IMPLEMENTED || er.getCode() == error::INVALID_OPERATION) { I.R.labels.add("unsupported.reorder"); return true; }
+        return I.fail("exception", std::string("reorderVariables threw ") + er.getName());
+    }
+    std::vector<int> after(size_t(K) + 1);
+    F->getVariableOrder(after.data());
+    I.R.labels.add("op.reorder");
+    I.R.labels.add(std::string("reorder.heuristic") + char('0' + W.fs[size_t(f)].reorder) + (W.fs[size_t(f)].swap ? ".level" : ".var"));
+    if (!identity) I.R.labels.add("reorder_nonidentity");
+    I.R.labels.add(after == l2v ? "order_achieved" : "order_not_achieved");
+    {
+        int held = 0;
+        for (size_t sl = 0; sl < W.slots.size(); sl++) if (I.liveSlot(int(sl)) && W.slots[sl].f == f) held++;
+        if (held >= 2) I.R.labels.add("reorder_2held_edges");
+    }
+    for (size_t g = 0; g < W.F.size(); g++) if (!before[g].empty()) {
+        std::vector<int> now(size_t(K) + 1);
+        W.F[g]->getVariableOrder(now.data());
+        if (now != before[g]) return I.fail("C13.other-forest-order", "reordering forest " + std::to_string(f) + " changed the variable order of forest " + std::to_string(g));
+    }
+    for (auto& pr : saved) if (!(pr.second == *W.slots[pr.first].e)) return I.fail("C13.other-forest-edge", "reordering changed an edge of another forest");
+    // held edges of f are re-evaluated by the after-step check (minterm positions follow the new order)
+    return true;
+}
+
+// ---------------------------------------------------------------------------------------
+// C14: exchange files
+// ---------------------------------------------------------------------------------------
+static bool sameKindForest(const FSpec& a, const FSpec& b)
+{
+    return a.dom == b.dom && a.rel == b.rel && a.range == b.range && a.label == b.label && a.red == b.red;
+}
+
+static bool doWrite(Interp& I, const Step& s)
+{
+    // write f s1 s2 ...
+    World& W = I.W;
+    I.iobuf.clear(); I.ioTables.clear(); I.ioSlots.clear(); I.ioForest = -1;
+    if (s.size() < 2) { I.skip("write-short"); return true; }
+    const int f = toInt(s[1]);
+    if (!I.okForest(f)) { I.skip("write-forest"); return true; }
+    std::vector<int> roots;
+    for (size_t i = 2; i < s.size(); i++) { int sl = toInt(s[i]); if (I.liveSlot(sl) && W.slots[size_t(sl)].f == f) roots.push_back(sl); }
+    std::ostringstream os;
+    try {
+        ostream_output out(os);
+        mdd_writer w(out, W.F[f]);
+        for (int sl : roots) w.writeRootEdge(*W.slots[size_t(sl)].e);
+        w.finish();
+    } catch (MEDDLY::error& er) {
+        return I.fail("exception", std::string("mdd_writer threw ") + er.getName());
+    }
+    I.iobuf = os.str();
+    I.ioForest = f;
+    I.ioSpec = W.fs[size_t(f)];
+    for (int sl : roots) { I.ioTables.push_back(W.slots[size_t(sl)].T); I.ioSlots.push_back(sl); }
+    I.R.labels.add("op.write");
+    {
+        std::set<int> distinct(roots.begin(), roots.end());
+        if (distinct.size() < roots.size()) I.R.labels.add("write_repeated_root");
+        for (int sl : roots) if (W.slots[size_t(sl)].e->getNode() <= 0) I.R.labels.add("write_terminal_root");
+        if (roots.size() >= 2) I.R.labels.add("write_2roots");
+    }
+    return true;
+}
+
+static bool doRead(Interp& I, const Step& s)
+{
+    // read same|forest|domain f dst0
+    World& W = I.W;
+    if (s.size() < 4) { I.skip("read-short"); return true; }
+    if (I.ioForest < 0 || I.iobuf.empty()) { I.skip("read-nothing-written"); return true; }
+    const std::string& mode = s[1];
+    int f = toInt(s[2]);
+    const int dst0 = toInt(s[3]);
+    if (dst0 < 0 || dst0 + int(I.ioTables.size()) > 64) { I.skip("read-slots"); return true; }
+    std::istringstream is(I.iobuf);
+    istream_input in(is);
+    mdd_reader* rd = nullptr;
+    try {
+        if (mode == "domain") {
+            // known finding KF-C14-reduction-not-recorded: the file does not record the reduction rule
+            // (a relation is read into an identity-reduced forest whatever rule the writer had: a
+            // fully-reduced writer's skipped levels change meaning, a quasi-reduced writer's nodes
+            // are stored without identity reduction)
+            if (I.ioSpec.rel && I.ioSpec.red != 'I' && !I.strictErrors) { I.R.labels.add("excluded.read_domain_nonidentity_relation"); return true; }
+            if (!W.doms[size_t(I.ioSpec.dom)].d) { I.skip("read-domain-gone"); return true; }
+            rd = new mdd_reader(in, W.doms[size_t(I.ioSpec.dom)].d);
+            forest* NF = rd->getForest();
+            if (!NF) { delete rd; return I.fail("C14.no-forest", "mdd_reader(input, domain) created no forest"); }
+            FSpec ns = I.ioSpec;
+            ns.red = NF->isFullyReduced() ? 'F' : NF->isQuasiReduced() ? 'Q' : 'I';
+            ns.stor = int(NF->getPolicies().storage_flags);
+            ns.del = NF->getPolicies().isPessimistic() ? 'P' : 'O';
+            if (NF->isForRelations() != ns.rel) { delete rd; return I.fail("C14.forest-kind", "forest created from the file has the wrong set/relation shape"); }
+            W.fs.push_back(ns);
+            W.F.push_back(NF);
+            f = int(W.F.size()) - 1;
+        } else {
+            if (mode == "same") f = I.ioForest;
+            if (!I.okForest(f)) { I.skip("read-forest"); return true; }
+            if (!sameKindForest(W.fs[size_t(f)], I.ioSpec)) { I.skip("read-kind"); return true; }
+            {
+                std::vector<int> oa(size_t(W.domOf(f).K()) + 1);
+                W.F[size_t(f)]->getVariableOrder(oa.data());
+                for (size_t l = 1; l < oa.size(); l++) if (oa[l] != int(l)) { I.skip("read-order"); return true; }
+            }
+            rd = new mdd_reader(in, W.F[size_t(f)]);
+        }
+        if (rd->numRoots() != I.ioTables.size()) {
+            std::string m = "file has " + std::to_string(rd->numRoots()) + " roots, " + std::to_string(I.ioTables.size()) + " were written";
+            delete rd; return I.fail("C14.root-count", m);
+        }
+        for (size_t i = 0; i < I.ioTables.size(); i++) {
+            dd_edge* e = new dd_edge(W.F[size_t(f)]);
+            rd->readRootEdge(*e);
+            if (!I.produce(dst0 + int(i), f, e, I.ioTables[i], "readRootEdge")) { delete rd; return false; }
+            if (f == I.ioForest) {
+                const int orig = I.ioSlots[i];
+                if (I.liveSlot(orig) && W.slots[size_t(orig)].f == f) {
+                    bool sameT = W.slots[size_t(orig)].T.size() == I.ioTables[i].size();
+                    for (size_t k = 0; sameT && k < I.ioTables[i].size(); k++) if (!exactVal(W.slots[size_t(orig)].T[k], I.ioTables[i][k])) sameT = false;
+                    if (sameT && W.fs[size_t(f)].label != 'T' && W.fs[size_t(f)].range != 'R') {
+                        if (!(*W.slots[size_t(dst0 + int(i))].e == *W.slots[size_t(orig)].e)) { delete rd; return I.fail("C14.same-forest-identity", "edge read back into the writing forest is not the original edge"); }
+                        I.R.labels.add("read_same_forest_identical");
+                    }
+                }
+            }
+        }
+        delete rd;
+    } catch (MEDDLY::error& er) {
+        delete rd;
+        return I.fail("exception", std::string("mdd_reader threw ") + er.getName());
+    }
+    I.R.labels.add("op.read." + mode);
+    I.R.labels.add("op.read");
+    return true;
+}
+
 bool Interp::doExtra(const Step& s, bool& handled)
 {
     handled = true;
     const std::string& op = s[0];
+    if (op == "un" && s.size() > 1 && s[1] == "INDEXSET") return doIndexSet(*this, s);
+    if (op == "reorder") return doReorder(*this, s);
+    if (op == "write") return doWrite(*this, s);
+    if (op == "read") return doRead(*this, s);
     if (op == "roundtrip") return doRoundTrip(*this, s);
     if (op == "iter") return doIter(*this, s);
     if (op == "counts") return doCounts(*this, s);
